@@ -469,54 +469,84 @@ def exec_api(case):
         limit = case['limit']
         fn = api.succeeded if case['succeeded'] else api.failed
         status = 'success' if case['succeeded'] else 'failure'
-        raw = fn(after=[after.isoformat()] if after else None,
-                 before=[before.isoformat()] if before else None,
-                 limit=[str(limit)] if limit else None)
-        ans = json.loads(raw)
-        if ans.get('status') != 'success':
-            out.fail('api/query-failed', str(ans)[:300])
-            return out
-        res = ans['content']
-        lo = after or datetime.datetime(1980, 1, 1, tzinfo=datetime.UTC)
-        hi = before or now
+        def ask():
+            raw = fn(after=[after.isoformat()] if after else None,
+                     before=[before.isoformat()] if before else None,
+                     limit=[str(limit)] if limit else None)
+            ans = json.loads(raw)
+            if ans.get('status') != 'success':
+                out.fail('api/query-failed', str(ans)[:300])
+                return False
+            res = ans['content']
+            lo = after or datetime.datetime(1980, 1, 1, tzinfo=datetime.UTC)
+            hi = before or now
 
-        def comp(e):
-            return datetime.datetime.fromisoformat(e['timing']['completed'])
+            def comp(e):
+                return datetime.datetime.fromisoformat(e['timing']['completed'])
 
-        window = sorted((r for r in appended
-                         if lo < comp(r) < hi and r['status'] == status),
-                        key=comp, reverse=True)
-        got = [_key(e) for e in res]
-        want = [_key(r) for r in window]
-        mode = ('A' if after else '') + ('B' if before else '') + (
-            'L' if limit else '')
-        out.label('mode-' + (mode or 'none'))
-        if case['before'] and case['before'][0] == 'at' or (
-                case['after'] and case['after'][0] == 'at'):
-            out.nontrivial = True
-            out.label('bound-equals-a-completion-time')
-        stray = [k for k in got if k not in want]
-        if stray:
-            out.fail('api/outside-window-or-outcome',
-                     f'mode={mode} after={after} before={before} '
-                     f'status={status}: {stray[:2]}')
-        times = [k[0] for k in got]
-        if times != sorted(times, reverse=True):
-            out.fail('api/not-newest-first', f'{times[:6]}')
-        if mode in ('AB', 'ABL', 'A', 'B') and not stray:
-            if sorted(got) != sorted(want):
-                missing = [k for k in want if k not in got]
-                out.fail('api/window-not-exact',
+            window = sorted((r for r in appended
+                             if lo < comp(r) < hi and r['status'] == status),
+                            key=comp, reverse=True)
+            got = [_key(e) for e in res]
+            want = [_key(r) for r in window]
+            mode = ('A' if after else '') + ('B' if before else '') + (
+                'L' if limit else '')
+            out.label('mode-' + (mode or 'none'))
+            if case['before'] and case['before'][0] == 'at' or (
+                    case['after'] and case['after'][0] == 'at'):
+                out.nontrivial = True
+                out.label('bound-equals-a-completion-time')
+            stray = [k for k in got if k not in want]
+            if stray:
+                out.fail('api/outside-window-or-outcome',
                          f'mode={mode} after={after} before={before} '
-                         f'missing={missing[:2]} got={len(got)} '
-                         f'want={len(want)}')
-        elif mode in ('BL', 'L') and not stray:
-            n = min(limit, len(want))
-            if got != want[:n] and sorted(k[0] for k in got) != sorted(
-                    k[0] for k in want[:n]):
-                out.fail('api/truncation-not-newest',
-                         f'mode={mode} limit={limit}: {len(got)} entries, '
-                         f'newest expected {len(want[:n])}')
+                         f'status={status}: {stray[:2]}')
+            times = [k[0] for k in got]
+            if times != sorted(times, reverse=True):
+                out.fail('api/not-newest-first', f'{times[:6]}')
+            if mode in ('AB', 'ABL', 'A', 'B') and not stray:
+                if sorted(got) != sorted(want):
+                    missing = [k for k in want if k not in got]
+                    out.fail('api/window-not-exact',
+                             f'mode={mode} after={after} before={before} '
+                             f'missing={missing[:2]} got={len(got)} '
+                             f'want={len(want)}')
+            elif mode in ('BL', 'L') and not stray:
+                n = min(limit, len(want))
+                if got != want[:n] and sorted(k[0] for k in got) != sorted(
+                        k[0] for k in want[:n]):
+                    out.fail('api/truncation-not-newest',
+                             f'mode={mode} limit={limit}: {len(got)} entries, '
+                             f'newest expected {len(want[:n])}')
+            return True
+
+        if not ask() or out.failures:
+            return out
+        if case.get('again'):
+            # other readers of the history in between: the statistics
+            # endpoint of the front end (it edits what find() gave it) and a
+            # caller that scribbles on its results; the same question must
+            # get the same answer afterwards
+            import dawgie.context
+            import dawgie.fe.api as feapi
+            import dawgie.pl.schedule as sched
+
+            out.label('asked-again-after-other-readers')
+            old_boot = getattr(dawgie.context, 'boot_time', None)
+            dawgie.context.boot_time = datetime.datetime(
+                1980, 1, 1, tzinfo=datetime.UTC)
+            saved_que, sched.que = sched.que, []
+            try:
+                for task in sorted({r['task'] for r in appended}):
+                    feapi.df_model_statistics([task])
+                for ok in (True, False):
+                    for e in chron.find(succeeded=ok, limit=50):
+                        e['status'] = 'scribbled'
+                        e['timing']['completed'] = '1999-01-01 00:00:00'
+            finally:
+                sched.que = saved_que
+                dawgie.context.boot_time = old_boot
+            ask()
     finally:
         api.datetime = real_dt
         world.rm(root)
@@ -539,6 +569,7 @@ def _api_case(draw):
     return {
         'entries': entries, 'after': after, 'before': before, 'limit': limit,
         'succeeded': draw(st.booleans()),
+        'again': draw(st.booleans()),
         'now_off': draw(st.integers(0, 86400)),
         'last': [(last - EPOCH).days, (last - EPOCH).seconds,
                  (last - EPOCH).microseconds],
